@@ -3,7 +3,8 @@
 (M)    spec/LoaderRepo.tla over the family FamC27 (EnumLoaderRepo.tla): declared x given parameter names
        x string / string-with-file-name / file loads x import graphs x six import mechanisms x global
        repository on/off, parameter values std / None / falsy, closures over two languages whose
-       metamodels declare different parameters; invariants C27_Reject (rejected iff an undeclared name is given, and then nothing
+       metamodels declare different parameters, parameters declared between two loads, forms of the
+       project_root value; invariants C27_Reject (rejected iff an undeclared name is given, and then nothing
        has happened) and C27_Params (every model created by the load exposes exactly the given parameters);
 (S->I) every scenario executed on the real loader: TextXError iff undeclared, dict(_tx_model_params) of
        every model of the closure, opens and repositories untouched on rejection;
